@@ -11,7 +11,7 @@ def replay(pid, path):
         print('failed obligation [%s] in %s::%s: %s' % (o['label'], o['module'], o['function'], o['message']))
         if o.get('clause'): print('   clause: ' + o['clause'])
         print('   site:   ' + (o.get('site') or ''))
-    if cx and (cx.get('layout') is not None or cx.get('json') is not None or cx.get('defs') is not None):
+    if cx and (cx.get('kind') in ('mapper', 'loader', 'loop') or any(cx.get(k) is not None for k in ('layout', 'json', 'defs', 'program', 'loop_seed'))):
         rc, out = witness.replay(pid, path)
         print(out)
         return 1 if rc == 1 else 0
